@@ -48,7 +48,7 @@ func (c17) RequiredBuckets(tier string) []string {
 		"writer:fasta", "writer:auto",
 		"alphabet:single-byte-record", "residues:cyclic-alphabet", "residues:random",
 		"empty-record-not-last", "multiple-of-70-not-last",
-		"cli:fasta clear", "cli:fasta reverse", "cli:fasta complement", "cli:fasta select", "cli:fasta sort", "cli:fasta pick", "cli:fasta -o", "cli:fasta cache-on", "cli:plumbing delete", "cli:plumbing extract", "cli:plumbing insert", "cli:plumbing split", "cli:plumbing join", "cli:plumbing search", "cli:fasta stream", "cli:fasta len%70=0", "cli:fasta CONTIG-only record",
+		"cli:fasta clear", "cli:fasta reverse", "cli:fasta complement", "cli:fasta select", "cli:fasta sort", "cli:fasta pick", "cli:fasta -o", "cli:fasta cache-on", "cli:plumbing delete", "cli:plumbing extract", "cli:plumbing insert", "cli:plumbing split", "cli:plumbing join", "cli:plumbing search", "cli:plumbing stream", "cli:fasta stream", "cli:fasta len%70=0", "cli:fasta CONTIG-only record",
 	}
 }
 
